@@ -118,13 +118,21 @@ def plot(*plots):
                 options.append(p.options)
             actual_plots.append(p)
     load_pyplot()
-    for o in options:
-        o.pre_plot_do()
-    for p in actual_plots:
-        p.func()
-    for o in options:
-        o.post_plot_do()
-    plt.show()
+    try:
+        for o in options:
+            o.pre_plot_do()
+        for p in actual_plots:
+            p.func()
+        for o in options:
+            o.post_plot_do()
+        plt.show()
+    except KaRuntimeError:
+        raise
+    except Exception as e:
+        # plot() draws while it is being evaluated, unlike a single drawing
+        # (which interpret.execute_plot runs and guards): whatever the
+        # plotting library objects to must not escape as a host exception.
+        raise KaRuntimeError(f"Error in call to plotting lib: {e}")
 
 def load_pyplot():
     global plt, ticker
